@@ -560,3 +560,63 @@ def check_edge_args(case):
         if f is not None:
             return f
     return None
+
+
+# ---------------------------------------------------------------------------------------------
+# models that report a variable all of whose terms have cancelled
+# ---------------------------------------------------------------------------------------------
+def _gen_cancelled(ctx):
+    rng = ctx.rng("c11.cancelled")
+    for fn in FNS:
+        spin = SPIN_FN[fn]
+        for tname in TYPES[fn]:
+            if tname == "dict":
+                continue
+            labs = GAP_LABELS if tname in MATRIX else LABELS
+            extra = 6 if tname in MATRIX else 'gone'
+            bases = [{}, {(labs[0],): 1}, {(labs[0], labs[1]): -1, (labs[1],): 2, (): 3}, {(): -2}]
+            for terms in bases:
+                for ck in ((extra,), (labs[0], extra)):
+                    for kwset in ({"num_anneals": 2, "anneal_duration": 2, "seed": 5},
+                                  {"num_anneals": 1, "schedule": [3, 2], "in_order": False, "seed": 1}):
+                        yield {"fn": fn, "type": tname, "terms": dict(terms), "cancel": ck, "kw": dict(kwset)}
+
+
+@clause("C11.cancelled_variables", "C11", gen=_gen_cancelled, nontrivial=lambda c: True)
+def check_cancelled_variables(case):
+    """A model object on which a term was added and subtracted again still reports the variables of that term
+    (``variables`` / ``max_index`` are upper bounds until ``refresh()``): the results must assign exactly the
+    variables the model reports (Matrix types: every index 0..max_index), with values in the right domain, and the
+    value must equal the model at the state."""
+    pf = preflight()
+    if pf is not None:
+        return pf
+    q = fresh_qubovert()
+    fn = getattr(q.sim, "anneal_" + case["fn"])
+    spin = SPIN_FN[case["fn"]]
+    M = cls_of(case["type"])(case["terms"])
+    M[case["cancel"]] += 2
+    M[case["cancel"]] -= 2
+    if case["type"] in MATRIX:
+        exp = list(range((M.max_index if M.max_index is not None else -1) + 1))
+    else:
+        exp = list(M.variables)
+    if not set(case["cancel"]) <= set(exp):
+        return Skip("the model does not report the cancelled variable")
+    res = fn(M, **case["kw"])
+    f = _aspect_count(case, res)
+    if f:
+        return f
+    dom = (1, -1) if spin else (0, 1)
+    for r in res:
+        ks = list(r.state.keys())
+        if len(ks) != len(exp) or set(ks) != set(exp):
+            return Fail("anneal_%s on a %s that reports the variables %r (a term over %r was added and subtracted "
+                        "again): state keys %r" % (case["fn"], case["type"], exp, case["cancel"], ks),
+                        key="keys:cancelled-boolean" if not spin else "keys:cancelled", observed=ks, required=exp)
+        if any(not any(v == d for d in dom) for v in r.state.values()):
+            return Fail("state values %r outside %r" % (r.state, dom), key="domain")
+        want = peval(case["terms"], r.state)
+        if not close(r.value, want):
+            return Fail("value %r but the model evaluates to %r at %r" % (r.value, want, r.state), key="value")
+    return None
